@@ -115,6 +115,12 @@ func And(ts ...T) T {
 		if t.S == "false" {
 			return False
 		}
+		if strings.HasPrefix(t.S, "(and ") {
+			for _, p := range splitSexp(t.S)[1:] {
+				keep = append(keep, T{p, SBool})
+			}
+			continue
+		}
 		keep = append(keep, t)
 	}
 	if len(keep) == 0 {
